@@ -434,7 +434,7 @@ def mesh_oracle(ctx, mk):
 
 # ------------------------------------------------------------------ search
 QUICK_N = {"cuboid_partition": 300, "cylinder_partition": 200, "cuboid_repr": 300, "sphere_dipole": 100,
-           "polyline_circle": 60, "mesh_convert": 200, "mixed_partition": 200}
+           "polyline_circle": 60, "mesh_convert": 200, "mixed_partition": 200, "hollow_mesh": 80}
 
 
 THOROUGH_FACTOR = 8
